@@ -4,7 +4,7 @@ import ast
 import re
 
 from ..pycfg import CFG, walk_no_nested
-from ..source import AnalysisError, find_function, find_class, first_line, src, functions, qualname, enclosing_function
+from ..source import dict_key_writes, AnalysisError, find_function, find_class, first_line, src, functions, qualname, enclosing_function
 
 TR = "nemoguardrails/colang/v2_x/lang/transformer.py"
 SM = "nemoguardrails/colang/v2_x/runtime/statemachine.py"
@@ -303,18 +303,16 @@ def a_reserved_names(ctx):
     if ge is None:
         raise AnalysisError("_get_eval_context not found", anchor=SM + "::_get_eval_context")
     reserved = set()
-    for c in ast.walk(ge):
-        if isinstance(c, ast.Call) and isinstance(c.func, ast.Attribute) and c.func.attr == "update" and src(c.func.value) == "context" and c.args and isinstance(c.args[0], ast.Dict):
-            for k in c.args[0].keys:
-                if isinstance(k, ast.Constant) and isinstance(k.value, str):
-                    reserved.add(k.value)
+    # keys the evaluation context receives on top of the flow's own variables (any spelling of the write)
+    ret_names = {src(r.value) for r in ast.walk(ge) if isinstance(r, ast.Return) and r.value is not None}
+    for m, k, v, site in dict_key_writes(ge):
+        if isinstance(k, str) and (m in ret_names or m == "context"):
+            reserved.add(k)
     exp = ctx.tree.ast(EXP)
     se = find_function(exp, "_expand_start_element")
-    for c in ast.walk(se):
-        if isinstance(c, ast.Call) and isinstance(c.func, ast.Attribute) and c.func.attr == "update" and "arguments" in src(c.func.value) and c.args and isinstance(c.args[0], ast.Dict):
-            for k in c.args[0].keys:
-                if isinstance(k, ast.Constant):
-                    reserved.add(k.value)
+    for m, k, v, site in dict_key_writes(se):
+        if isinstance(k, str) and "arguments" in m:
+            reserved.add(k)
     cfi = find_function(sm, "create_flow_instance")
     for i in ast.walk(cfi):
         if isinstance(i, ast.Compare) and isinstance(i.left, ast.Constant) and isinstance(i.ops[0], ast.In) and src(i.comparators[0]) == "event_arguments":
@@ -370,10 +368,11 @@ def b_return_channel(ctx):
     k1 = None
     for n in ast.walk(slide):
         if isinstance(n, ast.If) and "isinstance(element, Return)" in src(n.test):
-            for c in [x for s in n.body for x in ast.walk(s)]:
-                if isinstance(c, ast.Call) and src(c.func) == "flow_state.context.update" and isinstance(c.args[0], ast.Dict) and isinstance(c.args[0].keys[0], ast.Constant):
-                    k1 = c.args[0].keys[0].value
-                    val = src(c.args[0].values[0])
+            for st_ in n.body:
+                for m_, k_, v_, site_ in dict_key_writes(st_):
+                    if m_ == "flow_state.context" and isinstance(k_, str):
+                        k1 = k_
+                        val = src(v_)
     ctx.check("C08.b.return-channel", SM, "slide", "Return writes context key", k1 is not None, "`return <expr>` stores the evaluated value under the context key %r" % k1, line=slide.lineno)
     # finished_event reads K1 and publishes K2
     tf = ctx.tree.ast(FLOWS)
